@@ -86,3 +86,23 @@ let () =
          | Error pos -> "FAIL " ^ string_of_int pos
          | Ok s -> "ok " ^ (if Assemble.all_finished s then "1" else "0") ^ " " ^ hex_of_bytes s.Assemble.a_file)
     | _ -> "ERR args")
+
+(* ---- self seed ----
+   c01.selfseed <ids csv|-> <adds first:last,...|-> <queries csv|->
+   after each add: written and, per query id, the row offered (-1 = none):  "w;r,r,r|w;r,r,r|..." *)
+let () =
+  let nat s = nat_of_int (int_of_string s) in
+  Drv.register "c01.selfseed" (fun args -> match args with
+    | [ids; adds; qs] ->
+        let ids = if ids = "-" then [] else Stdlib.List.map n_of_string (split ',' ids) in
+        let adds = if adds = "-" then [] else Stdlib.List.map (fun t -> match split ':' t with
+          | [f; l] -> (nat f, nat l) | _ -> failwith "bad seg") (split ',' adds) in
+        let qs = if qs = "-" then [] else Stdlib.List.map n_of_string (split ',' qs) in
+        let st = ref SelfSeed.ss_init in
+        let out = Stdlib.List.map (fun a ->
+          st := SelfSeed.ss_add !st a;
+          string_of_int (int_of_nat (!st).SelfSeed.ss_written) ^ ";" ^
+          Stdlib.String.concat "," (Stdlib.List.map (fun q -> match SelfSeed.ss_get ids !st q with
+            | Some p -> string_of_int (int_of_nat p) | None -> "-1") qs)) adds in
+        if out = [] then "-" else Stdlib.String.concat "|" out
+    | _ -> "ERR args")
